@@ -6,7 +6,7 @@ LEVEL = 'exploration'
 CACHE_FULL = 0x607
 ST_RESP, ST_CONF, ST_ERR = 3, 4, 5
 
-ACTIONS = ['add', 'run', 'reply', 'reply_last', 'dup', 'unknown_id', 'stale_gen', 'bad_mac', 'err_status', 'err_pdu', 'push_conf', 'partial', 'close', 'refuse', 'wouldblock', 'clock']
+ACTIONS = ['add', 'run', 'reply', 'reply_last', 'dup', 'unknown_id', 'stale_gen', 'bad_mac', 'err_status', 'err_pdu', 'push_conf', 'partial', 'close', 'refuse', 'wouldblock', 'clock', 'grow']
 
 
 class Req:
@@ -175,6 +175,19 @@ class Monitor:
                 self.trace[-1] = 'add->cache-full'
             else:
                 self.viol('add-unexpected-error', 'addRequest rc=%#x' % q.rc)
+        elif a == 'grow':
+            # the request cache is enlarged on the live service (never shrunk): everything accepted so far stays accepted
+            newc = self.cache + rng.choice([1, 1, 2, 5])
+            if any(self.cache < x <= newc for x in getattr(self, 'unknown_pushed', ())):
+                # a reply with an id that was impossible so far is already on the wire: after the growth it would name a real slot
+                self.trace[-1] = 'grow-skipped'
+                return
+            q = s.cmd('async_opt 0 cache_size %d' % newc)
+            if q.rc == 0:
+                self.cache = newc
+                self.trace[-1] = 'grow->%d' % newc
+            else:
+                self.trace[-1] = 'grow-refused rc=%#x' % q.rc
         elif a == 'run':
             self.run()
         elif a in ('reply', 'reply_last'):
@@ -201,6 +214,7 @@ class Monitor:
             rid = rng.choice([0, 77, self.cache + 1, 2 ** 32 - 1, 2 ** 40 + 1, 2 ** 63])
             if rid in self.by_id and not self.by_id[rid].returned:
                 rid += 1000
+            self.unknown_pushed = getattr(self, 'unknown_pushed', set()) | {rid}
             self.push(S.aggr_response(dict(req_id=rid), gen.gen_signature(rng, first_corr=0, with_cal=False, rfc=False, doc_imprint=fake.hash, time=1500000000, nchains=1), self.key))
         elif a == 'stale_gen':
             out = self.outstanding()
